@@ -214,7 +214,7 @@ def run(tier, seed):
     cfg = make_cfg("c06", seed, max_dev=1 if q else 2)
     depth = {"h5": 3 if q else 4, "ih5": 3 if q else 4}
     sdepth = 2 if q else 3
-    budget = 170 if q else 2400
+    budget = 600 if q else 2400
     t0 = time.time()
     fam = {}
     violations = []
@@ -233,7 +233,8 @@ def run(tier, seed):
             samples += [{"driver": drv, "history": h} for h in r.pop("samples")[:1]]
             fam[drv] = r
             for sname, st in starts(cfg).items():
-                r = contexp.bfs(pool, "c06", cfg, drv, sdepth, budget_s=budget, t0=t0, start=st)
+                # (the "descendants" start mainly serves C07/C20; here one level less)
+                r = contexp.bfs(pool, "c06", cfg, drv, sdepth if sname != "descendants" else sdepth - 1, budget_s=budget, t0=t0, start=st)
                 violations += r.pop("violations")
                 samples += [{"driver": drv, "history": h} for h in r.pop("samples")[:1]]
                 fam[f"{drv}-from-{sname}"] = r
